@@ -1,5 +1,6 @@
 // C11 — wallet birthday: never later than creation, accurate to one month, stable under every transformation.
 #include "gen.hpp"
+#include "wrap.hpp"
 using namespace vf;
 
 static const lib::Registry* REG;
@@ -13,7 +14,15 @@ static std::string oracle(const Case& c) {
     // optionally the clock answers t only on its first reading and a failure value afterwards (a transient time() error):
     // the birthday must still be the one of a delivered reading
     if (c.u("flaky")) { k.clock_seq = {t, c.u("flaky") == 1 ? UINT64_MAX : c.u("flaky") == 2 ? 0 : model::EPOCH - 1}; }
-    lib::SeedPtr s; int st = polyseed_create((unsigned)c.u("ufeat") & 7u, s.out()); if (st != 0) { s.p = nullptr; return std::string("create returned ") + model::status_name(st); }
+    bool dflt = false;
+#ifdef VERIF_WRAP
+    // the built-in default clock (time entry NULL): libc time() is interposed and answers t
+    if (c.u("defaultclock")) { dflt = true; deps::inject(0, deps::OPT_ALLOC | deps::OPT_FREE); polyseed_enable_features(7); auto& w = deps::wrap(); w.enabled = true; w.window = true; w.fake = true; w.fake_time = t; w.time_calls = 0; }
+#endif
+    lib::SeedPtr s; int st = polyseed_create((unsigned)c.u("ufeat") & 7u, s.out());
+#ifdef VERIF_WRAP
+    if (dflt) { auto& w = deps::wrap(); w.window = false; w.fake = false; uint64_t calls = w.time_calls; w.enabled = false; deps::inject(0); polyseed_enable_features(7); if (st == 0 && calls < 1) return "no clock injected but create did not call libc time()"; if (st == 0) k.time_calls = 1; ev.count("default-clock(libc time interposed)"); }
+#endif if (st != 0) { s.p = nullptr; return std::string("create returned ") + model::status_name(st); }
     if (k.time_calls < 1) return "create did not consult the injected clock";
     uint64_t B = polyseed_get_birthday(s);
     if (c.u("flaky")) { bool ok = false; for (uint64_t r : k.clock_given) if (B == model::birthday_time(model::birthday_index(r))) ok = true; k.clock_seq.clear(); if (!ok) return "the clock was read " + std::to_string(k.clock_given.size()) + " times (first reading " + std::to_string(t) + ", later readings a failure value) and the birthday " + std::to_string(B) + " is that of none of the readings"; if (k.clock_given.size() > 1) ev.count("clock-read-more-than-once"); if (B != model::birthday_time(model::birthday_index(t))) { ev.count("flaky-clock:other-reading-used"); s.reset(); ev.eval(); return ""; } }
@@ -51,7 +60,7 @@ static void run() {
     uint64_t done = 0;
     for (size_t i = 0; i < ts.size(); i++) {
         if ((int)(i % (size_t)a.nworkers) != a.worker) continue;
-        Case c; c.set("t", ts[i]); c.set("secret", hex(std::string(19, (char)(i * 7)))); c.set("chain", hex(std::string("\x00\x01\x02\x01\x00\x02", 6))); c.set("lang", REG->at(i).name_en); c.set("coin", (uint64_t)(i % 2048));
+        Case c; c.set("t", ts[i]); c.set("secret", hex(std::string(19, (char)(i * 7)))); c.set("chain", hex(std::string("\x00\x01\x02\x01\x00\x02", 6))); c.set("lang", REG->at(i).name_en); c.set("coin", (uint64_t)(i % 2048)); c.set("defaultclock", (uint64_t)(W().args.variant == "rel" ? 1 : 0));
         set_current(c); std::string m = oracle(c); done++; if (!m.empty() && enum_fail(c, m)) return;
     }
     ev.enumerated["clock values at every month boundary -1/0/+1 and special values"] += done;
@@ -59,7 +68,7 @@ static void run() {
         uint64_t t = *rc::gen::weightedOneOf<uint64_t>({{4, rc::gen::map(vf::u64(), [](uint64_t x) -> uint64_t { return model::EPOCH + x % (1024 * model::STEP); })}, {2, vf::u64()},
             {2, rc::gen::map(rc::gen::pair(in_range<uint64_t>(0, 1026), in_range<int>(-2, 3)), [](std::pair<uint64_t, int> p) -> uint64_t { return model::EPOCH + p.first * model::STEP + (uint64_t)(int64_t)p.second; })},
             {1, rc::gen::map(vf::u64(), [](uint64_t x) -> uint64_t { return x % model::EPOCH; })}, {1, rc::gen::map(vf::u64(), [](uint64_t x) -> uint64_t { return model::EPOCH + 1024 * model::STEP + x % (1ull << 40); })}, {1, rc::gen::element<uint64_t>(UINT64_MAX, UINT64_MAX - 1, 0, model::EPOCH, model::EPOCH - 1)}});
-        Case c; c.set("t", t); c.set("secret", hex(*g::secret19())); c.set("ufeat", *in_range<unsigned>(0, 8)); c.set("chain", hex(*rc::gen::resize(10, rc::gen::container<std::vector<uint8_t>>(rc::gen::resize(100, rc::gen::inRange<uint8_t>(0, 4)))))); c.set("lang", REG->at(*g::lang_index()).name_en); c.set("coin", (uint64_t)*g::coin()); if (*in_range<int>(0, 8) == 0) c.set("flaky", *in_range<unsigned>(1, 4));
+        Case c; c.set("t", t); c.set("secret", hex(*g::secret19())); c.set("ufeat", *in_range<unsigned>(0, 8)); c.set("chain", hex(*rc::gen::resize(10, rc::gen::container<std::vector<uint8_t>>(rc::gen::resize(100, rc::gen::inRange<uint8_t>(0, 4)))))); c.set("lang", REG->at(*g::lang_index()).name_en); c.set("coin", (uint64_t)*g::coin()); if (*in_range<int>(0, 8) == 0) c.set("flaky", *in_range<unsigned>(1, 4)); else if (W().args.variant == "rel" && *in_range<int>(0, 2)) c.set("defaultclock", 1);
         set_current(c); std::string m = oracle(c); if (!m.empty()) VF_FAIL(c, m);
     });
 }
